@@ -7,6 +7,13 @@ ALLOWED_AXIOMS = {
 }
 
 REGISTRY = {
+    "C05": {
+        "checks": [("C05w", "CheckC05", "check_c05w"), ("C05bc", "CheckC05", "check_c05bc"),
+                   ("C05file", "CheckC05", "check_c05file"), ("C05filez", "CheckC05", "check_c05filez")],
+        "assumptions": ["klauspost/compress/flate is not modelled: the compressed bytes observed on the wire instantiate the model's deflate parameter; that they inflate to the payload under the RFC 7692 receiver is checked by the harness with Go's compress/flate (testing, not proof)",
+                        "unicode/utf8.Valid = Model/Utf8.utf8_valid (exhaustively compared for short strings by C16's check)",
+                        "net.Conn.Write transfers the whole buffer or returns an error (T1)"],
+    },
     "C18": {
         "checks": [("C18", "CheckC18", "check_c18")],
         "assumptions": ["binary.LittleEndian load/store = base-256 little-endian (modelled as le_load/le_store)",
